@@ -197,7 +197,9 @@ Inductive ftype : Type :=
 | TStruct (fs : list ftype)
 | TList (t : ftype)         (* List / LargeList *)
 | TFsl (t : ftype) (n : nat)(* FixedSizeList *)
-| TRee (t : ftype).         (* RunEndEncoded: the logical value is the value of type t *)
+| TRee (t : ftype)          (* RunEndEncoded: the logical value is the value of type t *)
+| TIv (ws : list nat).      (* IntervalDayTime [4;4] / IntervalMonthDayNano [4;4;8]: signed components of the
+                               given byte widths under ONE validity byte; the value is VStruct of VInt *)
 
 Inductive value : Type :=
 | VNull
@@ -205,6 +207,22 @@ Inductive value : Type :=
 | VBytes (b : list N)
 | VStruct (vs : list value)
 | VList (vs : list value).
+
+Definition vint (v : value) : Z := match v with VInt z => z | _ => 0%Z end.
+
+(* FixedLengthEncoding for IntervalDayTime / IntervalMonthDayNano: the components' encodings, in
+   declaration order (days, milliseconds) / (months, days, nanoseconds) *)
+Fixpoint encode_tuple (ws : list nat) (zs : list value) : list N :=
+  match ws with
+  | [] => []
+  | w :: ws' => encode_signed w (vint (hd VNull zs)) ++ encode_tuple ws' (tl zs)
+  end.
+Fixpoint decode_tuple (ws : list nat) (e : list N) : list value :=
+  match ws with
+  | [] => []
+  | w :: ws' => VInt (decode_signed w (firstn w e)) :: decode_tuple ws' (skipn w e)
+  end.
+Definition sum_widths (ws : list nat) : nat := fold_right Nat.add 0%nat ws.
 
 Definition fixed_width (t : ftype) : nat :=
   match t with TInt w | TUInt w | TFloat w => w | TBool => 1%nat | TFsb n => n | _ => 0%nat end.
@@ -247,6 +265,7 @@ Fixpoint enc (t : ftype) (o : opts) (v : value) {struct t} : list N :=
     | _ => [null_sentinel o]
     end
   | TRee c => encode_one o (Some (enc c (child_opts o) v))
+  | TIv ws => encode_fixed o (sum_widths ws) (match v with VStruct zs => Some (encode_tuple ws zs) | _ => None end)
   end.
 
 (* a row: concatenation of the field encodings *)
@@ -309,6 +328,7 @@ Fixpoint dec (t : ftype) (o : opts) (row : list N) {struct t} : value * list N :
   | TRee c =>
     let (data, used) := decode_blocks o row in
     (fst (dec c (child_opts o) (inv_if (descending o) data)), skipn used row)
+  | TIv ws => dec_fixed o (sum_widths ws) (fun e => VStruct (decode_tuple ws e)) row
   end.
 
 Fixpoint dec_row (fs : list field) (row : list N) : list value :=
@@ -354,6 +374,13 @@ Fixpoint cmp_asc (t : ftype) (nf : bool) (a b : value) {struct t} : comparison :
              | c => c
              end
            end) fs xs ys
+      | TIv _, VStruct xs, VStruct ys =>
+        (* lexicographic order of the signed components *)
+        (fix go (xs ys : list value) : comparison :=
+           match xs, ys with
+           | x :: xs', y :: ys' => match (vint x ?= vint y)%Z with Eq => go xs' ys' | r => r end
+           | _, _ => Eq
+           end) xs ys
       | (TList c | TFsl c _), VList xs, VList ys =>
         (fix go (xs ys : list value) : comparison :=
            match xs, ys with
@@ -393,6 +420,7 @@ Fixpoint wf_type (t : ftype) : Prop :=
   | TBool | TFsb _ | TVar => True
   | TStruct fs => (fix all (fs : list ftype) : Prop := match fs with [] => True | f :: r => wf_type f /\ all r end) fs
   | TList c | TFsl c _ | TRee c => wf_type c
+  | TIv ws => (fix all (ws : list nat) : Prop := match ws with [] => True | w :: r => (1 <= w)%nat /\ all r end) ws
   end.
 
 (* [wt t v]: v is a value of type t (what an Arrow array of that type can hold) *)
@@ -424,6 +452,14 @@ Fixpoint wt (t : ftype) (v : value) {struct t} : Prop :=
            | f :: fs', x :: vs' => wt f x /\ all fs' vs'
            | _, _ => False
            end) fs vs
+      | TIv ws =>
+        (fix all (ws : list nat) (vs : list value) : Prop :=
+           match ws, vs with
+           | [], [] => True
+           | w :: ws', VInt z :: vs' =>
+             (- 2 ^ (Z.of_N (bits w) - 1) <= z < 2 ^ (Z.of_N (bits w) - 1))%Z /\ all ws' vs'
+           | _, _ => False
+           end) ws vs
       | _ => False
       end
     | VList vs =>
